@@ -13,11 +13,14 @@ What is proved here (for all inputs):
   vertex — in exact reals and in ANY arithmetic whose `<` is a strict order with
   `thr < a - b → b < a` (floating point included); before the repair it could cycle forever.
 What is NOT proved (see PARTIAL in harness/props/c19.py): "≤ 1000 support evaluations" for
-the unbounded loops (the measure above gives ~1e17, not 1000), termination of MPR's
-`_refine_portal` and of the original GJK's main loop; these are explored by the counting proxy.
+the unbounded loops (the measure above gives ~1e17, not 1000), UNCONDITIONAL termination of
+MPR's `_refine_portal` (proved: what a continuing pass establishes, the monotone ray-crossing
+quantity, and an iteration bound conditional on a barycentric-weight hypothesis) and termination of
+the original GJK's main loop; these are explored by the counting proxy.
 -/
 import D3.Proofs.Termination
 import D3.Proofs.TerminationHill
+import D3.Proofs.TerminationMpr
 import D3.Gen.Constants
 
 namespace D3
@@ -139,6 +142,81 @@ theorem hill_climbing_asIs_before_fix_counterexample {β : Type} [LT β] [Decida
 
 example : hillClimb_asIs_before_fix (fun _ _ => (2 : Int)) (fun i => [(i + 1) % 3]) 1 1000 0 0 = none :=
   hill_climbing_asIs_before_fix_counterexample _ _ (by decide) (by decide) (by decide) 1000
+
+/-! ### MPR portal refinement (`mpr._refine_portal`, `mpr._find_penetration_info`) -/
+
+/-- **what a continuing pass of `_refine_portal` establishes** (exit logic `Term.refineStep`):
+the portal plane does not yet contain the origin (`v1·dir ≤ −10·EPSILON`), the new support point
+does (`v4·dir > −10·EPSILON`) and lies beyond each of the three portal vertices by at least
+`mpr_tolerance + EPSILON` along the current portal direction. -/
+theorem refine_portal_continue_gap (eps tol : ℝ) (o : PortalObs ℝ)
+    (h : refineStep eps tol o = .unknown) :
+    o.d1 ≤ -(10.0 * eps) ∧ -(10.0 * eps) < o.d4 ∧
+      tol + eps ≤ o.d4 - o.d1 ∧ tol + eps ≤ o.d4 - o.d2 ∧ tol + eps ≤ o.d4 - o.d3 :=
+  refineStep_unknown eps tol o h
+
+example : refineStep (0 : ℝ) 1 ⟨-1, -1, -1, 1⟩ = .unknown := by
+  unfold refineStep; norm_num
+
+/-- **the monotone quantity of portal refinement** (exact geometry, any direction `n`, no
+normalisation needed).  The portal direction changes on every pass, so `v1·dir` is not comparable
+between passes; what is monotone is the parameter `s` at which the origin ray `t ↦ t·v0` crosses
+the portal plane.  If the two kept portal vertices `a`, `b` lie in the current plane
+(`a·n = b·n = h`), the current crossing is `s·v0`, the new support point is beyond the plane by
+`gap`, and the ray crosses the new triangle `(a, b, v4)` at `s'·v0` with barycentric weights
+`l1, l2, l3 ≥ 0` — then `(s' − s)·(v0·n) ≥ l3·gap`.  With `v0·n < 0` (v0 is behind the portal) this
+says `s` decreases by at least `l3·gap/|v0·n|`: the crossing moves towards and past the origin. -/
+theorem mpr_portal_crossing_progress (n v0 a b v4 : V) (h s s' l1 l2 l3 gap : ℝ)
+    (ha : V3.dot a n = h) (hb : V3.dot b n = h) (h4 : h + gap ≤ V3.dot v4 n)
+    (hs : V3.dot (s * v0) n = h)
+    (hs' : s' * v0 = l1 * a + l2 * b + l3 * v4)
+    (hsum : l1 + l2 + l3 = 1) (hl3 : 0 ≤ l3) :
+    l3 * gap ≤ (s' - s) * V3.dot v0 n :=
+  portal_crossing_progress n v0 a b v4 h s s' l1 l2 l3 gap ha hb h4 hs hs' hsum hl3
+
+example :=
+  mpr_portal_crossing_progress ⟨0, 0, 1⟩ ⟨0, 0, -1⟩ ⟨1, 0, -(1/2)⟩ ⟨-1, 0, -(1/2)⟩ ⟨0, 0, 1/2⟩
+    (-(1/2)) (1/2) 0 (1/4) (1/4) (1/2) 1
+    (by simp [V3.dot_def]) (by simp [V3.dot_def]) (by simp [V3.dot_def]; norm_num)
+    (by simp [V3.dot_def]) (by apply V3.ext' <;> norm_num) (by norm_num) (by norm_num)
+
+/-- **`_refine_portal` iteration bound, CONDITIONAL on a weight hypothesis.**  `obs k` are the dot
+products pass `k` looks at, `d0 k = v0·dir_k`, `s k` the crossing parameter of the origin ray with
+the portal plane of pass `k` (`s k · d0 k = v1·dir_k`).  Hypotheses: the first `N` passes all
+continue; `v0` is behind every portal plane and `|v0·dir_k| ≤ D` (true with `D = |v0|` since `dir`
+is a unit vector); and — the hypothesis that is NOT derived from the code — in every pass the new
+support point enters the next crossing point with barycentric weight at least `lam > 0`, which by
+`mpr_portal_crossing_progress` gives `hprog`.  Then every continuing pass `k` satisfies
+`k · lam · (mpr_tolerance + EPSILON) ≤ s₀ · D`: at most `s₀·D / (lam·(tol+EPSILON)) + 1` passes. -/
+theorem refine_portal_terminates_conditional (eps tol lam D : ℝ) (heps : 0 ≤ eps)
+    (htol : 0 < tol + eps) (hlam : 0 < lam) (obs : ℕ → PortalObs ℝ) (s d0 : ℕ → ℝ) (N : ℕ)
+    (hcont : ∀ k, k < N → refineStep eps tol (obs k) = .unknown)
+    (hd0 : ∀ k, k < N → d0 k < 0 ∧ -D ≤ d0 k)
+    (hplane : ∀ k, k < N → s k * d0 k = (obs k).d1)
+    (hprog : ∀ k, k < N → lam * ((obs k).d4 - (obs k).d1) ≤ (s (k + 1) - s k) * d0 k) :
+    ∀ k, k < N → (k : ℝ) * (lam * (tol + eps)) ≤ s 0 * D :=
+  refine_iterations_bound eps tol lam D heps htol hlam obs s d0 N hcont hd0 hplane hprog
+
+/-- hypotheses satisfiable: two continuing passes, crossing parameter 1, 3/4, 1/2 -/
+example :=
+  refine_portal_terminates_conditional 0 1 (1/8) 1 (le_refl _) (by norm_num) (by norm_num)
+    (fun k => ⟨(k : ℝ) / 4 - 1, (k : ℝ) / 4 - 1, (k : ℝ) / 4 - 1, (k : ℝ) / 4 + 1⟩)
+    (fun k => 1 - (k : ℝ) / 4) (fun _ => -1) 2
+    (by intro k hk; have hk' : k = 0 ∨ k = 1 := by omega
+        rcases hk' with rfl | rfl <;> (unfold refineStep; norm_num))
+    (by intro k _; norm_num)
+    (by intro k _; ring)
+    (by intro k _; push_cast; ring_nf; norm_num)
+
+/-- **`_find_penetration_info` is capped**: whatever the support mappings return, the loop body
+(one Minkowski support evaluation each) runs at most `max_iterations + 2` times — the count behind
+`mprPenetrationInfoEvals`. -/
+theorem find_penetration_info_capped_bound (eps tol : ℝ) (maxIter : Nat)
+    (l : List (PortalObs ℝ)) : (penInfoRun eps tol maxIter l 0).2 ≤ maxIter + 2 :=
+  penInfoRun_count_le eps tol maxIter l 0 (by omega)
+
+example : penInfoRun (0 : Rat) 1 1 (List.replicate 10 ⟨-1, -1, -1, 1⟩) 0 = (true, 3) := by
+  decide +kernel
 
 /-- non-vacuity: a concrete continuing step and a concrete exit of the modelled exit logic -/
 example : (distStep (1e-3 : Rat) 1e-6 100000 4 4 ⟨1, true, 1, false, 9⟩).1 = .unknown := by
